@@ -10,7 +10,7 @@ import copy
 
 import facts
 
-MAX_BLOCKS = 1500
+MAX_BLOCKS = 6000
 
 
 def _shift_place(p, lo):
